@@ -68,6 +68,13 @@ def run(ctx):
         except Exception as ex:
             ctx.fail("operator raised on transversal operands", desc, got=repr(ex)); continue
         ctx.case("identities", key, nontrivial=impl.kind(I) != "Empty")
+        if it % 2 == 0:
+            # the measures are those of the RIGHT regions only if the regions are right: the four results of simple polygon pairs are also certified
+            # (a union computed as "two disjoint pieces" satisfies every measure identity while A|B and A&B are both wrong)
+            ta, tb = core.eshape(A0), core.eshape(B0)        # the operands as they were handed to the operators (possibly transformed in place before)
+            for opn, Rr in (("or", U), ("and", I), ("sub", D), ("xor", X)):
+                ans = drv.ask(f"regioncheck {opn} {ta} {tb} {core.eshape(Rr)}")
+                ctx.check(ans == "ok", "a result whose measure enters the identities is not the right region", {**desc, "op": opn, "witness": ans})
         ctx.count("kinds:" + impl.kind(A)[0] + impl.kind(B)[0])
         # exact Fraction identities are demanded while no coordinate involved has a denominator whose square reaches 10^9 (beyond that every Point2D
         # operation re-limits denominators - finding K5 - and the statement's own 1e-5 relative tolerance applies, as for float data)
